@@ -107,6 +107,11 @@ ANCHORS = {
 ASSUMPTIONS = [
     'intrinsic wrappers are lane-wise (Props.C12.LaneWise1/LaneWise2): op.eval on a register = the scalar functor on each lane; '
     'hypothesis of the theorems (never an axiom), validated on this CPU by the bitwise IMPL-simd vs IMPL-scalar comparison of every run',
+    'floating-point lanes compute at the element type\'s own precision (no double lane narrowed to float, no float lane rounded twice, no approximate '
+    'reciprocal / rsqrt instruction): part of the lane-wise hypothesis for the x86 / SIMDe intrinsics, a definition for the vector-extension builtin '
+    'loop (Simd.vecExtUnaryD / vecExtUnaryF with Simd.selectsF32); measured on every run on ~115 / ~135 precision-sensitive values per dtype through '
+    'every unary op and on ~350 operand pairs per binary op, in packed lanes, tail positions and set1 operands, against the scalar evaluator and NumPy; '
+    'the driver evaluates the lane model with the C library ceilf/ceil, floorf/floor, sqrtf/sqrt of the machine running the check',
     'integer lanes (Simd.packInt = List.zipWith IOp.lane): for every context and element width w the instruction behind '
     'simd_op_t<ctx,T>::add / sub / mul is ASSUMED to be the modular operation on every w-bit lane, whatever the signedness of T: '
     'x86 SSE _mm_add_epi8/16/32/64, _mm_sub_epi8/16/32/64, _mm_mullo_epi16/32; x86 AVX _mm256_add_epi8/16/32/64, '
@@ -150,7 +155,7 @@ PARTIAL = [
     'elementwise.special-values',
 ]
 MANIFEST = dict(
-    text='Proof: 61 Lean theorems over all element counts / row lengths / ranks and all lane counts > 0: closed form of the packed loop, every '
+    text='Proof: 68 Lean theorems over all element counts / row lengths / ranks and all lane counts > 0: closed form of the packed loop, every '
          'packed access inside its buffer, packed chunks + tail partition [0,n); SIMD unary / same-shape binary = scalar evaluator for '
          'operands of either layout (column-major operands take the scalar path); 2-d broadcasting binary: every output cell written '
          'exactly once, operand offsets = NumPy broadcasting (incl. (1,1) operands), offsets in bounds, evaluator = NumPy broadcasting; '
@@ -169,6 +174,11 @@ MANIFEST = dict(
          'int16 multiply, unsigned 32/64-bit; counterexamples uint16*uint16 and int32 overflow), hence SIMD = scalar evaluator for integer '
          'binary / broadcast / outer with no lane-wise hypothesis left, and integer add / multiply reductions over any axis are EXACT '
          '(modular + and * are commutative monoids), integer matmul (fmadd = mullo + add) is exactly the modular sum of products; saturating instructions are shown not to be lane-wise. '
+         'Floating-point unary lanes: the vector-extension wrappers are a loop over the lanes applying the builtin selected from the element type; '
+         'a lane loop is lane-wise for the scalar functor IFF its lane function is that functor on every value (packLanes_laneWise_iff), the own-precision '
+         'selection (float -> ceilf, double -> ceil) is, double lanes through the single-precision builtin are iff narrowing is invisible on every double '
+         '(fixed-point witness vecExtCeil_narrowed_not_laneWise), hence vector-extension unary = scalar evaluator with no lane-wise hypothesis; the same lane '
+         'model at Float / Float32 answers the precision-sensitive ceil / floor / sqrt requests of every context bit for bit. '
          'Intrinsic wrappers are an explicit lane-wise hypothesis. Tied to the C++ by a differential run of array::fn(args, ctx) for six '
          'SIMD contexts x float/double and x eight integer types (boundary values of every type) against array::fn(args) in the same binary, the Lean model and NumPy, plus the pure enumerators '
          'tuple by tuple and an ASan run.',
